@@ -6,13 +6,14 @@ ID = "C03"
 LEVEL = "exploration"
 NEED_CPP = True
 RULE = ("one case per (h, r, declaration order): spec with h distinct trivially-true `where` constraints and "
-        "r computed repetitions; a satisfying tree (parsed from a satisfying word) is handed to the real "
+        "r computed repetitions, plus a second family whose constraints cycle through every constraint form (comparisons with and without matches, "
+        "expressions, both quantifier styles, and/or); a satisfying tree (parsed from a satisfying word) is handed to the real "
         "Evaluator.evaluate_individual and must be yielded; then fuzz() runs end to end under the online "
         "accept monitor. Non-trivial: the tree reached evaluate_individual and both constraint classes "
         "reported 1.0. Distinct by (h, r, order).")
 EXHAUSTIVE = {"quick": True, "thorough": True, "what": "all (h, r) with 0<=h,r<=N, h+r>=1 (N=12 quick, 16 thorough) x orders"}
 TIMEOUTS = {"quick": (40, 240), "thorough": (90, 1500)}
-MIN = {"quick": {"cases": 150, "nontrivial": 150, "observed": {"grid_satisfying_evals": 150}},
+MIN = {"quick": {"cases": 150, "nontrivial": 150, "observed": {"grid_satisfying_evals": 150, "grid_mixed_form_cases": 60}},
        "thorough": {"cases": 800, "nontrivial": 800, "observed": {"grid_satisfying_evals": 800}}}
 ASSUMPTIONS = ["satisfaction of a tree is taken from construction (grid) or from the evaluator's own class verdicts (online monitor); C02/C07 judge those verdicts",
                "an end-to-end run that finds no solution without any monitor alarm is counted, not a violation (the search is heuristic)"]
@@ -20,11 +21,32 @@ ASSUMPTIONS = ["satisfaction of a tree is taken from construction (grid) or from
 ORDERS = ["rules_first", "constraints_first", "interleaved", "extra"]
 
 
-def build_spec(h, r, order):
-    rules = ["<start> ::= <n> " + " ".join(f"<x{i}>{{int(<n>)}}" for i in range(r)),
+# constraint forms that the satisfying word satisfies by construction (checked again at run time through each
+# constraint's own check()): comparisons with and without matches (<opt> is absent from the satisfying tree, so a
+# constraint over it holds vacuously), plain expressions, quantifiers of both styles, and/or
+FORMS = [
+    "len(str(<start>)) + {i} > 0",
+    "int(<opt>) + {i} > 99",
+    "str(<n>).isdigit() or {i} > 99",
+    "forall <v> in <n>: int(<v>) + {i} > 0",
+    "int(<n>) + {i} > 0 and len(str(<start>)) > 0",
+    "exists <v> in <n>: int(<v>) + {i} >= 2",
+    "int(<n>) + {i} < 0 or int(<n>) == 2",
+    "all(int(v) + {i} > 0 for v in *<n>)",
+    "str(<opt>) == 'q{i}'",
+    "any(int(v) + {i} >= 2 for v in *<n>)",
+]
+
+
+def build_spec(h, r, order, forms=False):
+    rules = ["<start> ::= <n> " + " ".join(f"<x{i}>{{int(<n>)}}" for i in range(r)) + (" <opt>?" if forms else ""),
              "<n> ::= '1' | '2' | '3'"]
+    if forms:
+        rules.append("<opt> ::= '7'")
     rules += [f"<x{i}> ::= '{chr(ord('a') + i)}'" for i in range(r)]
     cons = [f"where len(str(<start>)) + {i} > 0" for i in range(h)]
+    if forms:
+        cons = ["where " + FORMS[(i + h + r) % len(FORMS)].format(i=i) for i in range(h)]
     extra = []
     if order == "rules_first":
         lines = rules + cons
@@ -61,6 +83,9 @@ def cases(tier, seed):
                     continue
                 out.append({"key": f"h{h}-r{r}-{o}", "h": h, "r": r, "order": o, "seed": seed,
                             "e2e": tier == "thorough" or (h + r) % 3 == 0})
+            if h >= 1 and (tier == "thorough" or (h + r) % 2 == 0):
+                out.append({"key": f"h{h}-r{r}-forms", "h": h, "r": r, "order": "rules_first", "forms": True, "seed": seed,
+                            "e2e": (h + r) % 4 == 0})
     return out
 
 
@@ -78,7 +103,7 @@ def run_case(c):
 
     accept.reset()
     h, r, order = c["h"], c["r"], c["order"]
-    text, extra = build_spec(h, r, order)
+    text, extra = build_spec(h, r, order, forms=c.get("forms", False))
     stats = {"evaluations": 0}
     violations = []
     f = Fandango(text, use_stdlib=False)
@@ -94,6 +119,12 @@ def run_case(c):
     nh, nr = len(ev._hard_constraints), len(ev._repetition_bounds_constraints)
     if nh != h or nr != r:
         return {"status": "inconclusive", "reason": f"spec has h={nh} r={nr}, wanted {h},{r}"}
+    if c.get("forms"):
+        # satisfaction by construction, confirmed through every constraint's own verdict
+        bad = [x.format_as_spec() for x in list(ev._hard_constraints) + list(ev._repetition_bounds_constraints) if not x.check(tree)]
+        if bad:
+            return {"status": "inconclusive", "reason": f"constructed tree does not satisfy {bad[:2]}"}
+        stats["grid_mixed_form_cases"] = 1
     before = hooks.COUNTS["accept_monitor_satisfying"]
     got = list(ev.evaluate_individual(tree))
     stats["evaluations"] += 1
@@ -120,7 +151,7 @@ def run_case(c):
     for v in accept.VIOLATIONS:
         violations.append({"what": f"(h={h}, r={r}, order={order}) online: " + v["what"], "mech": None, "witness": v})
     res = {"status": "violation" if violations else "ok", "violations": violations, "stats": stats,
-           "nontrivial": reached > 0, "distinct_key": [h, r, order]}
+           "nontrivial": reached > 0, "distinct_key": [h, r, order, bool(c.get("forms"))]}
     if h == 1 and r in (0, 5) and order == "rules_first":
         res["sample"] = {"h": h, "r": r, "order": order, "spec": text, "word": word, "yielded": not violations,
                          "e2e_solutions": e2e_solutions}
